@@ -271,7 +271,7 @@ Qed.
 Lemma spec_results s op :
   snd (spec_step s op) =
   match op with
-  | SDump _ _ | SPack | SReopen => RUnit
+  | SDump _ _ | SPack | SReopen | SPackCrash _ => RUnit
   | SLoad k => match aget k s with Some v => RVal v | None => RMissing end
   | SCanLoad k | SRemove k => RBool (match aget k s with Some _ => true | None => false end)
   | SRemoveMany ks => RKeys (filter (fun k => kmem k ks) (akeys s))
@@ -287,6 +287,21 @@ Proof. destruct op; simpl; try reflexivity. rewrite length_akeep. reflexivity. Q
 Definition res_agree (op : sop) (rc rs : sres) : Prop :=
   match op with
   | SList | SRemoveMany _ => exists a b, rc = RKeys a /\ rs = RKeys b /\ NoDup a /\ Permutation a b
+  | SPack => rs = RUnit /\ (rc = RUnit \/ exists n, rc = RCount n)
+  | _ => rc = rs
+  end.
+
+(* an interrupted `jug pack` (SPackCrash) is outside the op language of the exact statements *)
+Definition no_crash (op : sop) : Prop := match op with SPackCrash _ => False | _ => True end.
+
+(* what remains exact when `jug pack` may die half-way (a key can then be in the pack and a file at once):
+   every answer about a single key; list() names exactly the live keys but may name one twice; cleanup()
+   counts objects (pack entries + files), at least one per removed key *)
+Definition res_agree_k (op : sop) (rc rs : sres) : Prop :=
+  match op with
+  | SList => exists a b, rc = RKeys a /\ rs = RKeys b /\ (forall k, In k a <-> In k b)
+  | SRemoveMany _ => exists a b, rc = RKeys a /\ rs = RKeys b /\ NoDup a /\ Permutation a b
+  | SCleanup _ => exists n m, rc = RCount n /\ rs = RCount m /\ (m <= n)%nat
   | SPack => rs = RUnit /\ (rc = RUnit \/ exists n, rc = RCount n)
   | _ => rc = rs
   end.
@@ -633,11 +648,11 @@ Proof.
 Qed.
 
 (* ---- one step ---- *)
-Lemma fstep_ok Ev s sp op : True -> FInv s -> SInv sp -> FR s sp ->
+Lemma fstep_ok Ev s sp op : no_crash op -> FInv s -> SInv sp -> FR s sp ->
   FInv (fst (fstep Ev s op)) /\ FR (fst (fstep Ev s op)) (fst (spec_step sp op)) /\
   res_agree op (snd (fstep Ev s op)) (snd (spec_step sp op)).
 Proof.
-  intros _ HI HS HR. destruct op as [k v|k|k|k|ks| |act| |]; cbn [fstep spec_step fst snd].
+  intros Hnc HI HS HR. destruct op as [k v|k|k|k|ks| |act| | |n]; cbn [fstep spec_step fst snd]; [| | | | | | | | |destruct Hnc].
   - (* dump *) destruct (f_dump_ok Ev s sp k v HI HR) as [A B].
     split; [exact A|]. split; [exact B|]. reflexivity.
   - (* load *) split; [exact HI|]. split; [exact HR|]. simpl. rewrite (HR k). reflexivity.
@@ -682,48 +697,40 @@ Proof.
     split; [exact A|]. split; [exact B|]. reflexivity.
 Qed.
 
-(* ---- whole histories ---- *)
-Theorem file_store_refines Ev compress ops :
+(* ---- whole histories (without an interrupted pack) ---- *)
+Definition no_crashes (ops : list sop) : Prop := Forall no_crash ops.
+
+Theorem file_store_refines Ev compress ops : no_crashes ops ->
   FInv (fst (run (fstep Ev) (f_init compress) ops)) /\
   (forall k, f_load (fst (run (fstep Ev) (f_init compress) ops)) k = aget k (fst (run spec_step [] ops))) /\
   all_agree res_agree ops (snd (run (fstep Ev) (f_init compress) ops)) (snd (run spec_step [] ops)).
 Proof.
-  destruct (run_refines (fstep Ev) FInv FR (fun _ => True) res_agree (fstep_ok Ev) ops (f_init compress) [])
+  intros Hnc.
+  destruct (run_refines (fstep Ev) FInv FR no_crash res_agree (fstep_ok Ev) ops (f_init compress) [])
     as [A [_ [B D]]].
-  - apply Forall_forall. intros; exact I.
+  - exact Hnc.
   - apply f_init_inv.
   - constructor.
   - intros k. reflexivity.
   - split; [exact A|]. split; [exact B | exact D].
 Qed.
 
-Theorem file_store_last_write Ev compress ops k :
-  f_load (fst (run (fstep Ev) (f_init compress) ops)) k = last_write (rev ops) k /\
-  (f_can_load (fst (run (fstep Ev) (f_init compress) ops)) k = true <-> last_write (rev ops) k <> None).
+Lemma no_crashes_iff ops : no_crashes ops <-> forall n, ~ In (SPackCrash n) ops.
 Proof.
-  destruct (file_store_refines Ev compress ops) as [_ [B _]].
-  rewrite f_can_load_eq, (B k), spec_is_last_write. split; [reflexivity|].
-  destruct (last_write (rev ops) k); split; intro H; congruence.
+  unfold no_crashes. rewrite Forall_forall. split.
+  - intros H n Hin. exact (H _ Hin).
+  - intros H op Hin. destruct op; try exact I. exact (H _ Hin).
 Qed.
 
-(* states reachable from the empty store *)
+(* states reachable from the empty store without an interrupted pack *)
 Definition f_reach (Ev : venv) (s : fstore) : Prop :=
-  exists compress ops, s = fst (run (fstep Ev) (f_init compress) ops).
+  exists compress ops, no_crashes ops /\ s = fst (run (fstep Ev) (f_init compress) ops).
 
 Lemma f_reach_inv Ev s : f_reach Ev s -> FInv s /\ exists sp, SInv sp /\ FR s sp.
 Proof.
-  intros [c [ops ->]]. destruct (file_store_refines Ev c ops) as [A [B _]].
+  intros [c [ops [Hnc ->]]]. destruct (file_store_refines Ev c ops Hnc) as [A [B _]].
   split; [exact A|]. exists (fst (run spec_step [] ops)). split; [|exact B].
   apply spec_run_inv. constructor.
-Qed.
-
-(* the effect of every operation on what can be loaded: pack and reopen change nothing *)
-Theorem file_step_effect Ev s op k : f_reach Ev s ->
-  f_load (fst (fstep Ev s op)) k = touch op k (f_load s k).
-Proof.
-  intros Hr. destruct (f_reach_inv Ev s Hr) as [HI [sp [HS HR]]].
-  destruct (fstep_ok Ev s sp op I HI HS HR) as [_ [B _]].
-  rewrite (B k), spec_step_get, (HR k). reflexivity.
 Qed.
 
 Theorem file_list_exact Ev s : f_reach Ev s ->
@@ -737,26 +744,411 @@ Proof.
   intros k. rewrite in_app_iff, <- !amem_in_keys. unfold f_can_load. rewrite orb_true_iff. tauto.
 Qed.
 
-Theorem file_remove_truthful Ev s k : f_reach Ev s ->
+(* ================================================================================================ *)
+(* file_store when `jug pack` may die half-way: a key may be in the pack AND a file                 *)
+(* ================================================================================================ *)
+Record FInvK (s : fstore) : Prop := {
+  fk_files : NoDup (akeys (f_files s));
+  fk_packed : NoDup (akeys (f_packed s));
+  (* a key that is both in the pack and a file has the same value in both places *)
+  fk_agree : forall k v x, aget k (f_packed s) = Some v -> aget k (f_files s) = Some x -> fst x = v;
+  fk_pack : f_packfile s = Some (f_packed s) \/ (f_packfile s = None /\ f_packed s = [])
+}.
+
+Lemma FInv_FInvK s : FInv s -> FInvK s.
+Proof.
+  intros [Hf Hp Hd Hpk]. constructor; try assumption.
+  intros k v x Hv Hx. exfalso.
+  assert (A : amem k (f_packed s) = true) by (apply amem_true_aget; exists v; exact Hv).
+  apply Hd in A. apply amem_false_aget in A. congruence.
+Qed.
+
+Lemma f_dump_ok_k Ev s sp k v : FInvK s -> FR s sp ->
+  FInvK (f_dump Ev s k v) /\ FR (f_dump Ev s k v) (aset k v sp).
+Proof.
+  intros [Hf Hp Ha Hpk] HR. destruct s as [F P PF cmp]. unfold f_dump, FR in *. simpl in *.
+  destruct (amem k P) eqn:EP; simpl.
+  - split.
+    + constructor; simpl.
+      * apply NoDup_aset. exact Hf.
+      * apply NoDup_aremove. exact Hp.
+      * intros k' v' x. rewrite aget_aremove, aget_aset.
+        destruct (Pos.eqb k' k); [discriminate|]. apply Ha.
+      * left. reflexivity.
+    + intros k'. rewrite f_load_eq. simpl. rewrite aget_aremove, !aget_aset.
+      destruct (Pos.eqb k' k) eqn:E; [reflexivity|].
+      rewrite <- (HR k'), f_load_eq. reflexivity.
+  - split.
+    + constructor; simpl.
+      * apply NoDup_aset. exact Hf.
+      * exact Hp.
+      * intros k' v' x. rewrite aget_aset.
+        destruct (Pos.eqb k' k) eqn:E.
+        -- apply Pos.eqb_eq in E. subst k'. apply amem_false_aget in EP. rewrite EP. discriminate.
+        -- apply Ha.
+      * exact Hpk.
+    + intros k'. rewrite f_load_eq. simpl. rewrite !aget_aset.
+      destruct (Pos.eqb k' k) eqn:E.
+      * apply Pos.eqb_eq in E. subst k'. apply amem_false_aget in EP. rewrite EP. reflexivity.
+      * rewrite <- (HR k'), f_load_eq. reflexivity.
+Qed.
+
+Lemma f_remove_many_ok_k s sp ks s' removed : FInvK s -> SInv sp -> FR s sp ->
+  f_remove_many s ks = (s', removed) ->
+  FInvK s' /\ FR s' (akeep (fun k => negb (kmem k ks)) sp) /\
+  NoDup removed /\ (forall x, In x removed <-> kmem x ks = true /\ f_can_load s x = true).
+Proof.
+  intros [Hf Hp Ha Hpk] HS HR H. unfold f_remove_many in H.
+  destruct (f_remove_loop ks (f_files s) (f_packed s) []) as [[F' P'] rem'] eqn:EL.
+  inversion H; subst; clear H. apply f_remove_loop_spec in EL. destruct EL as [HF [HP [Hrem Hnd]]].
+  subst F' P'. split; [|split; [|split]].
+  - constructor; simpl.
+    + apply NoDup_akeep. exact Hf.
+    + apply NoDup_akeep. exact Hp.
+    + intros k v x. rewrite !aget_akeep. destruct (negb (kmem k ks)); [apply Ha | discriminate].
+    + left. reflexivity.
+  - intros k. rewrite f_load_eq. simpl. rewrite !aget_akeep. rewrite <- (HR k), f_load_eq.
+    destruct (negb (kmem k ks)); reflexivity.
+  - apply Hnd. constructor.
+  - intros x. rewrite Hrem. unfold f_can_load. simpl. tauto.
+Qed.
+
+Lemma f_live_keys s sp x : FR s sp -> (In x (akeys sp) <-> In x (akeys (f_packed s) ++ akeys (f_files s))).
+Proof.
+  intros HR. rewrite in_app_iff, <- !amem_in_keys.
+  assert (E : amem x sp = f_can_load s x) by (rewrite f_can_load_eq, (HR x); reflexivity).
+  rewrite E. unfold f_can_load. rewrite orb_true_iff. tauto.
+Qed.
+
+Lemma f_cleanup_ok_k s sp act s' n : FInvK s -> SInv sp -> FR s sp ->
+  f_cleanup s act = (s', n) ->
+  FInvK s' /\ FR s' (akeep (fun k => kmem k act) sp) /\
+  (length (akeep (fun k => negb (kmem k act)) sp) <= n)%nat.
+Proof.
+  intros [Hf Hp Ha Hpk] HS HR H. unfold f_cleanup in H. inversion H; subst; clear H.
+  split; [|split].
+  - assert (Hcommon : forall pf, (pf = Some (akeep (fun k => kmem k act) (f_packed s)) \/
+                                  (pf = None /\ akeep (fun k => kmem k act) (f_packed s) = [])) ->
+             FInvK {| f_files := akeep (fun k => kmem k act) (f_files s);
+                      f_packed := akeep (fun k => kmem k act) (f_packed s);
+                      f_packfile := pf; f_compress := f_compress s |}).
+    { intros pf Hpf. constructor; simpl.
+      - apply NoDup_akeep. exact Hf.
+      - apply NoDup_akeep. exact Hp.
+      - intros k v x. rewrite !aget_akeep. destruct (kmem k act); [apply Ha | discriminate].
+      - exact Hpf. }
+    destruct (Nat.eqb (length (akeep (fun k => negb (kmem k act)) (f_packed s))) 0) eqn:E0.
+    + apply Hcommon. apply Nat.eqb_eq in E0.
+      assert (Esame : akeep (fun k => kmem k act) (f_packed s) = f_packed s).
+      { unfold akeep in *. apply filter_all_when_none_rejected. exact E0. }
+      rewrite Esame. destruct Hpk as [Hpk|[Hpk1 Hpk2]]; [left; exact Hpk | right; split; assumption].
+    + unfold resave. simpl. apply Hcommon. left. reflexivity.
+  - assert (Hload : forall pf k, f_load {| f_files := akeep (fun k => kmem k act) (f_files s);
+                     f_packed := akeep (fun k => kmem k act) (f_packed s);
+                     f_packfile := pf; f_compress := f_compress s |} k
+                     = aget k (akeep (fun k => kmem k act) sp)).
+    { intros pf k. rewrite f_load_eq. simpl. rewrite !aget_akeep, <- (HR k), f_load_eq.
+      destruct (kmem k act); reflexivity. }
+    destruct (Nat.eqb (length (akeep (fun k => negb (kmem k act)) (f_packed s))) 0); intros k; apply Hload.
+  - rewrite !length_akeep. rewrite Nat.add_comm, <- app_length, <- filter_app.
+    apply NoDup_incl_length.
+    + apply NoDup_filter_keys. exact HS.
+    + intros x Hx. apply filter_In in Hx. destruct Hx as [Hx Hpx]. apply filter_In. split; [|exact Hpx].
+      apply (f_live_keys s sp x HR). exact Hx.
+Qed.
+
+(* the loop of update_pack when a listed file may already be in the pack (with the same value) *)
+Lemma f_pack_loop_spec_k Ev : forall todo s rm s' rm',
+  f_pack_loop Ev todo s rm = (s', rm') ->
+  NoDup (akeys todo) -> NoDup (akeys (f_packed s)) ->
+  (forall k x, In (k, x) todo -> aget k (f_files s) = Some x /\ (forall v, aget k (f_packed s) = Some v -> v = fst x)) ->
+  f_files s' = f_files s /\ f_packfile s' = f_packfile s /\ f_compress s' = f_compress s /\
+  NoDup (akeys (f_packed s')) /\
+  (forall k, aget k (f_packed s') =
+             match aget k todo with
+             | Some x => if entry_small Ev x then Some (fst x) else aget k (f_packed s)
+             | None => aget k (f_packed s)
+             end) /\
+  (forall k, In k rm' <-> In k rm \/ exists x, aget k todo = Some x /\ entry_small Ev x = true).
+Proof.
+  induction todo as [|[k x] r IH]; intros s rm s' rm' H Hnd Hp Hin.
+  - simpl in H. inversion H; subst. repeat split; try assumption; try reflexivity.
+    + intros A. left. exact A.
+    + intros [A|[y [A _]]]; [exact A | discriminate].
+  - cbn [f_pack_loop] in H.
+    assert (Hnd' : NoDup (akeys r)) by (inversion Hnd; assumption).
+    assert (Hk : ~ In k (akeys r)) by (inversion Hnd; assumption).
+    assert (Hkr : aget k r = None) by (apply aget_notin_keys; exact Hk).
+    destruct (Hin k x (or_introl eq_refl)) as [HkF HkP].
+    assert (Hload : f_load s k = Some (fst x)).
+    { rewrite f_load_eq. destruct (aget k (f_packed s)) as [v|] eqn:EP.
+      - rewrite (HkP v eq_refl). reflexivity.
+      - rewrite HkF. reflexivity. }
+    assert (Hget_cons : forall k0, aget k0 ((k, x) :: r) = if Pos.eqb k0 k then Some x else aget k0 r).
+    { intros k0. reflexivity. }
+    destruct (entry_small Ev x) eqn:Esm.
+    + rewrite Hload in H. apply IH in H; clear IH.
+      * destruct H as [A [B [C0 [D [G Hrm]]]]]. simpl in A, B, C0, G.
+        repeat split; try assumption.
+        -- intros k0. rewrite G, Hget_cons, aget_aset.
+           destruct (Pos.eqb_spec k0 k) as [->|Hne].
+           ++ rewrite Hkr, Esm. reflexivity.
+           ++ reflexivity.
+        -- rewrite Hrm, Hget_cons. destruct (Pos.eqb_spec k0 k) as [->|Hne].
+           ++ intros _. right. exists x. split; [reflexivity | exact Esm].
+           ++ simpl. intros [[A1|A1]|A1]; [congruence | left; exact A1 | right; exact A1].
+        -- rewrite Hrm, Hget_cons. destruct (Pos.eqb_spec k0 k) as [->|Hne].
+           ++ intros _. left. left. reflexivity.
+           ++ simpl. intros [A1|A1]; [left; right; exact A1 | right; exact A1].
+      * exact Hnd'.
+      * simpl. apply NoDup_aset. exact Hp.
+      * intros k' x' Hx'. simpl. destruct (Hin k' x' (or_intror Hx')) as [A B]. split; [exact A|].
+        intros v. rewrite aget_aset. destruct (Pos.eqb_spec k' k) as [->|Hne]; [|apply B].
+        exfalso. apply Hk. unfold akeys. apply in_map_iff. exists (k, x'). split; [reflexivity | exact Hx'].
+    + apply IH in H; clear IH.
+      * destruct H as [A [B [C0 [D [G Hrm]]]]].
+        repeat split; try assumption.
+        -- intros k0. rewrite G, Hget_cons.
+           destruct (Pos.eqb_spec k0 k) as [->|Hne]; [rewrite Hkr, Esm; reflexivity | reflexivity].
+        -- rewrite Hrm, Hget_cons. destruct (Pos.eqb_spec k0 k) as [->|Hne].
+           ++ rewrite Hkr. intros [A1|[y [A1 _]]]; [left; exact A1 | discriminate].
+           ++ tauto.
+        -- rewrite Hrm, Hget_cons. destruct (Pos.eqb_spec k0 k) as [->|Hne].
+           ++ intros [A1|[y [A1 A2]]]; [left; exact A1 | congruence].
+           ++ tauto.
+      * exact Hnd'.
+      * exact Hp.
+      * intros k' x' Hx'. apply Hin. right. exact Hx'.
+Qed.
+
+(* after the loop and resave_pack(): unlinking ANY part [ks] of the files that were packed keeps every answer *)
+Lemma f_pack_partial_ok Ev s sp s1 rm ks : FInvK s -> FR s sp ->
+  f_pack_loop Ev (f_files s) s [] = (s1, rm) -> (forall k, In k ks -> In k rm) ->
+  FInvK (set_files (resave s1) (fold_left (fun fl k => aremove k fl) ks (f_files (resave s1)))) /\
+  FR (set_files (resave s1) (fold_left (fun fl k => aremove k fl) ks (f_files (resave s1)))) sp.
+Proof.
+  intros [Hf Hp Ha Hpk] HR EL Hks.
+  apply f_pack_loop_spec_k in EL; [|exact Hf|exact Hp|].
+  2:{ intros k x Hin. assert (Hx : aget k (f_files s) = Some x) by (apply aget_of_in; assumption).
+      split; [exact Hx|]. intros v Hv. symmetry. exact (Ha k v x Hv Hx). }
+  destruct EL as [A [B [C0 [D [G Hrm]]]]].
+  assert (Hrm' : forall k, In k rm <-> exists x, aget k (f_files s) = Some x /\ entry_small Ev x = true).
+  { intros k. rewrite Hrm. split; [intros [[]|X]; exact X | intros X; right; exact X]. }
+  simpl. rewrite fold_aremove_as_akeep, A.
+  split.
+  - constructor; simpl.
+    + apply NoDup_akeep. exact Hf.
+    + exact D.
+    + intros k v x Hv Hx. rewrite aget_akeep in Hx. destruct (negb (kmem k ks)); [|discriminate].
+      rewrite G, Hx in Hv. destruct (entry_small Ev x).
+      * congruence.
+      * exact (Ha k v x Hv Hx).
+    + left. reflexivity.
+  - intros k. rewrite <- (HR k), !f_load_eq. simpl. rewrite G, aget_akeep.
+    destruct (aget k (f_files s)) as [x|] eqn:EF.
+    + destruct (entry_small Ev x) eqn:Esm.
+      * destruct (aget k (f_packed s)) as [v|] eqn:EP; [rewrite (Ha k v x EP EF)|]; reflexivity.
+      * destruct (aget k (f_packed s)); [reflexivity|].
+        destruct (kmem k ks) eqn:Ek; [|reflexivity].
+        apply kmem_in, Hks, Hrm' in Ek. destruct Ek as [y [Y1 Y2]]. congruence.
+    + destruct (aget k (f_packed s)); [reflexivity|]. destruct (negb (kmem k ks)); reflexivity.
+Qed.
+
+Lemma f_pack_ok_k Ev s sp s' n : FInvK s -> FR s sp -> f_pack Ev s = (s', n) -> FInvK s' /\ FR s' sp.
+Proof.
+  intros HI HR H. unfold f_pack in H.
+  destruct (f_pack_loop Ev (f_files s) s []) as [s1 rm] eqn:EL. inversion H; subst; clear H.
+  apply (f_pack_partial_ok Ev s sp s1 rm rm HI HR EL). tauto.
+Qed.
+
+Lemma f_reopen_ok_k s sp : FInvK s -> FR s sp -> FInvK (f_reopen s) /\ FR (f_reopen s) sp.
+Proof.
+  intros [Hf Hp Ha Hpk] HR. unfold f_reopen.
+  assert (E : match f_packfile s with Some p => p | None => [] end = f_packed s).
+  { destruct Hpk as [Hpk|[Hpk1 Hpk2]]; [rewrite Hpk; reflexivity | rewrite Hpk1, Hpk2; reflexivity]. }
+  rewrite E. split.
+  - constructor; simpl; assumption.
+  - intros k. rewrite <- (HR k). reflexivity.
+Qed.
+
+Lemma kinsert_in x k l : In x (kinsert k l) <-> x = k \/ In x l.
+Proof.
+  induction l as [|y r IH]; simpl; [intuition congruence|].
+  destruct (Pos.leb k y); simpl; [intuition congruence|]. rewrite IH. intuition congruence.
+Qed.
+
+Lemma sort_keys_in x l : In x (sort_keys l) <-> In x l.
+Proof.
+  unfold sort_keys. induction l as [|y r IH]; simpl; [tauto|]. rewrite kinsert_in, IH. intuition congruence.
+Qed.
+
+Lemma in_firstn {A} (x : A) n l : In x (firstn n l) -> In x l.
+Proof.
+  revert l. induction n as [|n IH]; intros l H; simpl in H; [contradiction|].
+  destruct l as [|y r]; [contradiction|]. destruct H as [H|H]; [left; exact H | right; apply IH; exact H].
+Qed.
+
+Lemma f_pack_crash_ok_k Ev s sp n : FInvK s -> FR s sp ->
+  FInvK (f_pack_crash Ev s n) /\ FR (f_pack_crash Ev s n) sp.
+Proof.
+  intros HI HR. unfold f_pack_crash.
+  destruct (f_pack_loop Ev (f_files s) s []) as [s1 rm] eqn:EL.
+  destruct (f_pack_partial_ok Ev s sp s1 rm (firstn n (sort_keys rm)) HI HR EL) as [A B].
+  - intros k Hk. apply in_firstn in Hk. apply sort_keys_in. exact Hk.
+  - apply f_reopen_ok_k; assumption.
+Qed.
+
+(* ---- one step, every operation ---- *)
+Lemma fstep_ok_k Ev s sp op : True -> FInvK s -> SInv sp -> FR s sp ->
+  FInvK (fst (fstep Ev s op)) /\ FR (fst (fstep Ev s op)) (fst (spec_step sp op)) /\
+  res_agree_k op (snd (fstep Ev s op)) (snd (spec_step sp op)).
+Proof.
+  intros _ HI HS HR. destruct op as [k v|k|k|k|ks| |act| | |n]; cbn [fstep spec_step fst snd].
+  - (* dump *) destruct (f_dump_ok_k Ev s sp k v HI HR) as [A B].
+    split; [exact A|]. split; [exact B|]. reflexivity.
+  - (* load *) split; [exact HI|]. split; [exact HR|]. simpl. rewrite (HR k). reflexivity.
+  - (* can_load *) split; [exact HI|]. split; [exact HR|]. simpl. rewrite f_can_load_eq, (HR k). reflexivity.
+  - (* remove *)
+    destruct (f_remove_many s [k]) as [s1 removed] eqn:E. cbn [fst snd].
+    destruct (f_remove_many_ok_k s sp [k] s1 removed HI HS HR E) as [A [B [_ Hrem]]].
+    split; [exact A|]. split.
+    + intros k'. rewrite (B k'), aget_akeep, aget_aremove, kmem_cons. unfold kmem. simpl.
+      rewrite orb_false_r. destruct (Pos.eqb k' k); reflexivity.
+    + simpl. f_equal.
+      assert (Elive : amem k sp = f_can_load s k) by (rewrite f_can_load_eq, (HR k); reflexivity).
+      rewrite Elive. destruct (f_can_load s k) eqn:L.
+      * assert (In k removed) by (apply Hrem; split; [unfold kmem; simpl; rewrite Pos.eqb_refl; reflexivity | exact L]).
+        destruct removed; [contradiction | reflexivity].
+      * destruct removed as [|x t]; [reflexivity|]. exfalso.
+        destruct (proj1 (Hrem x) (or_introl eq_refl)) as [X1 X2].
+        unfold kmem in X1. simpl in X1. rewrite orb_false_r in X1. apply Pos.eqb_eq in X1. congruence.
+  - (* remove_many *)
+    destruct (f_remove_many s ks) as [s1 removed] eqn:E. cbn [fst snd].
+    destruct (f_remove_many_ok_k s sp ks s1 removed HI HS HR E) as [A [B [Hnd Hrem]]].
+    split; [exact A|]. split; [exact B|]. simpl.
+    exists removed, (filter (fun k => kmem k ks) (akeys sp)).
+    split; [reflexivity|]. split; [reflexivity|]. split; [exact Hnd|].
+    apply NoDup_Permutation; [exact Hnd | apply NoDup_filter_keys; exact HS |].
+    intros x. rewrite Hrem, filter_In, <- amem_in_keys, f_can_load_eq, (HR x). unfold amem. tauto.
+  - (* list *)
+    split; [exact HI|]. split; [exact HR|]. simpl.
+    exists (akeys (f_packed s) ++ akeys (f_files s)), (akeys sp).
+    split; [reflexivity|]. split; [reflexivity|]. intros x. symmetry. apply f_live_keys. exact HR.
+  - (* cleanup *)
+    destruct (f_cleanup s act) as [s1 n] eqn:E. cbn [fst snd].
+    destruct (f_cleanup_ok_k s sp act s1 n HI HS HR E) as [A [B Hn]].
+    split; [exact A|]. split; [exact B|]. simpl.
+    exists n, (length (akeep (fun k => negb (kmem k act)) sp)). split; [reflexivity|]. split; [reflexivity | exact Hn].
+  - (* pack *)
+    destruct (f_pack Ev s) as [s1 n] eqn:E. cbn [fst snd].
+    destruct (f_pack_ok_k Ev s sp s1 n HI HR E) as [A B].
+    split; [exact A|]. split; [exact B|]. simpl. split; [reflexivity|]. right. exists n. reflexivity.
+  - (* reopen *)
+    destruct (f_reopen_ok_k s sp HI HR) as [A B].
+    split; [exact A|]. split; [exact B|]. reflexivity.
+  - (* pack killed half-way, new process *)
+    destruct (f_pack_crash_ok_k Ev s sp n HI HR) as [A B].
+    split; [exact A|]. split; [exact B|]. reflexivity.
+Qed.
+
+(* ---- whole histories, interrupted packs included ---- *)
+Theorem file_store_refines_k Ev compress ops :
+  FInvK (fst (run (fstep Ev) (f_init compress) ops)) /\
+  (forall k, f_load (fst (run (fstep Ev) (f_init compress) ops)) k = aget k (fst (run spec_step [] ops))) /\
+  all_agree res_agree_k ops (snd (run (fstep Ev) (f_init compress) ops)) (snd (run spec_step [] ops)).
+Proof.
+  destruct (run_refines (fstep Ev) FInvK FR (fun _ => True) res_agree_k (fstep_ok_k Ev) ops (f_init compress) [])
+    as [A [_ [B D]]].
+  - apply Forall_forall. intros; exact I.
+  - apply FInv_FInvK, f_init_inv.
+  - constructor.
+  - intros k. reflexivity.
+  - split; [exact A|]. split; [exact B | exact D].
+Qed.
+
+Theorem file_store_last_write Ev compress ops k :
+  f_load (fst (run (fstep Ev) (f_init compress) ops)) k = last_write (rev ops) k /\
+  (f_can_load (fst (run (fstep Ev) (f_init compress) ops)) k = true <-> last_write (rev ops) k <> None).
+Proof.
+  destruct (file_store_refines_k Ev compress ops) as [_ [B _]].
+  rewrite f_can_load_eq, (B k), spec_is_last_write. split; [reflexivity|].
+  destruct (last_write (rev ops) k); split; intro H; congruence.
+Qed.
+
+(* states reachable from the empty store by ANY operations, interrupted packs included *)
+Definition f_reach_k (Ev : venv) (s : fstore) : Prop :=
+  exists compress ops, s = fst (run (fstep Ev) (f_init compress) ops).
+
+Lemma f_reach_reach_k Ev s : f_reach Ev s -> f_reach_k Ev s.
+Proof. intros [c [ops [_ H]]]. exists c, ops. exact H. Qed.
+
+Lemma f_reach_k_inv Ev s : f_reach_k Ev s -> FInvK s /\ exists sp, SInv sp /\ FR s sp.
+Proof.
+  intros [c [ops ->]]. destruct (file_store_refines_k Ev c ops) as [A [B _]].
+  split; [exact A|]. exists (fst (run spec_step [] ops)). split; [|exact B].
+  apply spec_run_inv. constructor.
+Qed.
+
+(* the effect of every operation on what can be loaded: pack, a killed pack and reopen change nothing *)
+Theorem file_step_effect Ev s op k : f_reach_k Ev s ->
+  f_load (fst (fstep Ev s op)) k = touch op k (f_load s k).
+Proof.
+  intros Hr. destruct (f_reach_k_inv Ev s Hr) as [HI [sp [HS HR]]].
+  destruct (fstep_ok_k Ev s sp op I HI HS HR) as [_ [B _]].
+  rewrite (B k), spec_step_get, (HR k). reflexivity.
+Qed.
+
+Theorem file_list_complete Ev s : f_reach_k Ev s ->
+  fst (fstep Ev s SList) = s /\
+  exists l, snd (fstep Ev s SList) = RKeys l /\ forall k, In k l <-> f_can_load s k = true.
+Proof.
+  intros _. split; [reflexivity|]. exists (akeys (f_packed s) ++ akeys (f_files s)).
+  split; [reflexivity|].
+  intros k. rewrite in_app_iff, <- !amem_in_keys. unfold f_can_load. rewrite orb_true_iff. tauto.
+Qed.
+
+Theorem file_remove_truthful Ev s k : f_reach_k Ev s ->
   snd (fstep Ev s (SRemove k)) = RBool (f_can_load s k) /\
   f_can_load (fst (fstep Ev s (SRemove k))) k = false.
 Proof.
-  intros Hr. destruct (f_reach_inv Ev s Hr) as [HI [sp [HS HR]]].
-  destruct (fstep_ok Ev s sp (SRemove k) I HI HS HR) as [_ [B D]].
-  cbn [res_agree] in D. split.
+  intros Hr. destruct (f_reach_k_inv Ev s Hr) as [HI [sp [HS HR]]].
+  destruct (fstep_ok_k Ev s sp (SRemove k) I HI HS HR) as [_ [B D]].
+  cbn [res_agree_k] in D. split.
   - rewrite D. cbn [spec_step snd]. rewrite f_can_load_eq, (HR k). reflexivity.
   - rewrite f_can_load_eq, (file_step_effect Ev s (SRemove k) k Hr). simpl. rewrite Pos.eqb_refl. reflexivity.
 Qed.
 
-Theorem file_remove_many_truthful Ev s ks : f_reach Ev s ->
-  exists l, snd (fstep Ev s (SRemoveMany ks)) = RKeys l /\ NoDup l /\
-            forall k, In k l <-> In k ks /\ f_can_load s k = true.
+Theorem file_remove_many_truthful Ev s ks : f_reach_k Ev s ->
+  (exists l, snd (fstep Ev s (SRemoveMany ks)) = RKeys l /\ NoDup l /\
+             forall k, In k l <-> In k ks /\ f_can_load s k = true) /\
+  (forall k, In k ks -> f_can_load (fst (fstep Ev s (SRemoveMany ks))) k = false).
 Proof.
-  intros Hr. destruct (f_reach_inv Ev s Hr) as [HI [sp [HS HR]]].
-  cbn [fstep]. destruct (f_remove_many s ks) as [s1 removed] eqn:E.
-  destruct (f_remove_many_ok s sp ks s1 removed HI HS HR E) as [_ [_ [Hnd Hrem]]].
-  exists removed. split; [reflexivity|]. split; [exact Hnd|].
-  intros k. rewrite Hrem, kmem_in. tauto.
+  intros Hr. destruct (f_reach_k_inv Ev s Hr) as [HI [sp [HS HR]]]. split.
+  - cbn [fstep]. destruct (f_remove_many s ks) as [s1 removed] eqn:E.
+    destruct (f_remove_many_ok_k s sp ks s1 removed HI HS HR E) as [_ [_ [Hnd Hrem]]].
+    exists removed. split; [reflexivity|]. split; [exact Hnd|].
+    intros k. rewrite Hrem, kmem_in. tauto.
+  - intros k Hk. rewrite f_can_load_eq, (file_step_effect Ev s (SRemoveMany ks) k Hr). simpl.
+    apply kmem_in in Hk. rewrite Hk. reflexivity.
+Qed.
+
+(* cleanup(active) leaves exactly the active keys that were live, in the pack and as files alike *)
+Theorem file_cleanup_exact Ev s act k : f_reach_k Ev s ->
+  f_can_load (fst (fstep Ev s (SCleanup act))) k = kmem k act && f_can_load s k.
+Proof.
+  intros Hr. rewrite !f_can_load_eq, (file_step_effect Ev s (SCleanup act) k Hr). simpl.
+  destruct (kmem k act); [reflexivity|]. reflexivity.
+Qed.
+
+(* a killed pack can make a key live in both places, and then every operation still removes / keeps both:
+   the state is reachable (so the theorems above are not vacuous about it) *)
+Lemma both_places_reachable :
+  let E := {| isarr := fun _ => false; small_raw := fun _ => true; small_enc := fun _ => true |} in
+  let s := fst (run (fstep E) (f_init false) [SDump 1%positive 5%Z; SDump 2%positive 6%Z; SPackCrash 1]) in
+  f_reach_k E s /\ amem 2%positive (f_packed s) = true /\ amem 2%positive (f_files s) = true /\
+  amem 1%positive (f_packed s) = true /\ amem 1%positive (f_files s) = false.
+Proof.
+  split; [exists false; eexists; reflexivity|]. vm_compute. repeat split; reflexivity.
 Qed.
 
 (* ================================================================================================ *)
@@ -834,7 +1226,7 @@ Section Dict.
     res_agree op (snd (dstep s op)) (snd (spec_step sp op)).
   Proof.
     unfold DInv, DR. intros Hok HI HS HR. subst sp.
-    destruct op as [k v|k|k|k|ks| |act| |]; cbn [dstep spec_step fst snd].
+    destruct op as [k v|k|k|k|ks| |act| | |n]; cbn [dstep spec_step fst snd].
     - split; [exact HI|]. split; reflexivity.
     - split; [exact HI|]. split; reflexivity.
     - split; [exact HI|]. split; reflexivity.
@@ -859,6 +1251,7 @@ Section Dict.
     - split; [exact HI|]. split; [reflexivity|]. simpl. split; [reflexivity | left; reflexivity].
     - destruct Hok as [Hb|Hne]; [|congruence]. unfold d_reopen. rewrite HI, Hb. simpl.
       split; [reflexivity|]. split; reflexivity.
+    - split; [exact HI|]. split; reflexivity.
   Qed.
 End Dict.
 
@@ -887,7 +1280,7 @@ Lemma rstep_ok (s : rstore) sp op : True -> True -> SInv sp -> s = sp ->
   res_agree_redis op (snd (rstep s op)) (snd (spec_step sp op)).
 Proof.
   intros _ _ HS HR. subst sp. split; [exact I|].
-  destruct op as [k v|k|k|k|ks| |act| |]; cbn [rstep spec_step fst snd].
+  destruct op as [k v|k|k|k|ks| |act| | |n]; cbn [rstep spec_step fst snd].
   - split; [reflexivity | left; reflexivity].
   - split; [reflexivity|]. destruct (aget k s).
     + left. reflexivity.
@@ -911,6 +1304,7 @@ Proof.
   - unfold r_cleanup. cbn [fst snd]. split; [apply cleanup_existing_eq|]. left. simpl.
     rewrite length_akeep. reflexivity.
   - split; [reflexivity|]. left. simpl. split; [reflexivity | left; reflexivity].
+  - split; [reflexivity | left; reflexivity].
   - split; [reflexivity | left; reflexivity].
 Qed.
 
